@@ -18,6 +18,7 @@ over every schedule; what is trusted is that Redis runs a script atomically.
 -/
 import Std.Data.String.ToNat
 import GoZero.C19.Refine
+import GoZero.C19.Schedule
 import GoZero.C19.Driver
 namespace GoZero.C19
 open Spec
@@ -208,6 +209,34 @@ theorem concurrent_acquires_free_key (cfg : Nat → LockCfg) (st : St) (j : Nat)
     (hfree : st.store.get (cfg j).key = none) : j ∈ winners cfg st (j :: js) := by
   simp [winners, (acquire_free_wins cfg st j hfree).1]
 
+/-! ### Schedules -/
+
+/-- **Every schedule is a history.**  Let any number of goroutines run Acquire / Release / SetExpire calls,
+interleaved at their atomic steps (load of `seconds`, script run, store of `seconds`; clock moving in
+between): the shared state reached is the state of the history of its script runs and stores. -/
+theorem every_schedule_is_a_history (cfg : Nat → LockCfg) (ops : List Op) (c : Conc)
+    (h : Exec cfg Conc.init ops c) : c.st = run cfg St.init ops :=
+  exec_is_history cfg h
+
+/-- the lease theorem read over schedules: once `i`'s script run has succeeded, whatever any other
+goroutines do in whatever interleaving, `i` holds exactly while less than `seconds·1000+500` ms elapsed. -/
+theorem lease_under_every_schedule (cfg : Nat → LockCfg) (hd : DistinctIds cfg) (st0 : St) (i secs : Nat)
+    (h : (acquireWith cfg st0 i secs).2 = true) (c c' : Conc) (hc : c.st = (acquireWith cfg st0 i secs).1)
+    (ops : List Op) (he : Exec cfg c ops c') (hq : ∀ op ∈ ops, quietFor i op = true) :
+    holds cfg c'.st i ↔ elapsed ops < secs * 1000 + 500 := by
+  rw [exec_is_history cfg he, hc]
+  exact lease_is_seconds_plus_500ms cfg hd st0 i secs h ops hq
+
+/-- in every configuration any schedule can reach, the callers' beliefs are exclusive. -/
+theorem at_most_one_holder_under_every_schedule (cfg : Nat → LockCfg) (hd : DistinctIds cfg) (ops : List Op)
+    (c : Conc) (h : Exec cfg Conc.init ops c) (i j : Nat) (hij : i ≠ j) (hk : (cfg i).key = (cfg j).key) :
+    ¬ (believes (grun cfg St.init Belief.none ops).2 c.st.store.now i = true ∧
+       believes (grun cfg St.init Belief.none ops).2 c.st.store.now j = true) := by
+  have := at_most_one_holder cfg hd ops i j hij hk
+  rw [grun_fst] at this
+  rw [every_schedule_is_a_history cfg ops c h]
+  exact this
+
 /-! ### The whole model is the lease table of the specification -/
 
 /-- for every history from the empty store, the Redis-level model (Lua scripts over the store) returns
@@ -278,6 +307,14 @@ example : holds exCfg (run exCfg St.init [.acquire 1]) 1 := by decide
 -- the lease is the loaded 2·1000+500 ms
 example : (run exCfg St.init [.setExpire 0 2, .setExpire 0 0, .acquireS 0 2]).view "k" = some ("a", 2500) := by
   decide
+
+-- … and the same as an execution of two goroutines (thread 7 acquires on instance 0, thread 9 sets expiry)
+example : Exec exCfg
+    { st := (run exCfg St.init [.setExpire 0 2]), pc := fun _ => .idle }
+    [.setExpire 0 0, .acquireS 0 2]
+    { st := run exCfg (run exCfg St.init [.setExpire 0 2]) [.setExpire 0 0, .acquireS 0 2],
+      pc := updPc (updPc (fun _ => .idle) 7 (.loaded 0 2)) 7 .idle } :=
+  .tau (.load _ 7 0 rfl) (.vis (.setExpire _ 9 0 0 (by decide)) (.vis (.script _ 7 0 2 (by decide)) (.nil _)))
 
 -- a burst of five attempts (instance 2 twice): only instance 2, whose script ran first, wins
 example : winners exCfg St.init [2, 0, 1, 2, 3] = [2, 2] := by decide
